@@ -22,7 +22,7 @@ def _cases(draw):
     which = draw(st.integers(0, 2))
     base = gen.PROFILES["text" if which == 0 else "broad"]
     prof = dict(base, p_text_ref=0.6, p_table_list=0.1, p_hint=0.5, p_guidance=0.2, p_choice_label_ref=0.3, p_tag_names=0.12, p_default=0.3, p_osm=0.03,
-                p_extra_cols=0.5, p_refs_only=0.06)
+                p_extra_cols=0.5, p_refs_only=0.06, p_lit_ws=0.1)
     g = gen.G(draw, prof)
     form = gen.build_form(draw, prof, g=g)
     if form.get("lists") and g.p("_", 0.12):
@@ -30,6 +30,17 @@ def _cases(draw):
         qs = [n for n, _ in model.walk(form["nodes"]) if n["k"] == "q" and "label" in n["c"] and "calculation" not in n["c"] and "trigger" not in n["c"]]
         for n in qs[: g.integer(1, 2)]:
             n["c"]["label"] = f"A instance('{ln}')/root/item[name = 'c1']/label B instance('{ln}')/root/item[name = 'c2']/label C"
+    if g.p("_", 0.15):
+        # Unicode line/paragraph separators and NEL inside texts (pasted from a word processor): ordinary characters of the text
+        for n, _ in model.walk(form["nodes"]):
+            for k in list(n["c"]):
+                if k.split("::")[0] in ("label", "hint", "constraint_message", "required_message", "guidance_hint") and g.p("_", 0.3):
+                    n["c"][k] = n["c"][k] + " a" + g.pick(["\u2028", "\u2029", "\x85"]) + "b"
+        for lst in form.get("lists", []):
+            for r in lst["rows"]:
+                for k in list(r):
+                    if k.split("::")[0] == "label" and g.p("_", 0.3):
+                        r[k] = r[k] + " a" + g.pick(["\u2028", "\u2029", "\x85"]) + "b"
     return {"form": form}
 
 
@@ -49,18 +60,54 @@ def evaluate(case) -> Outcome:
     if s1 != "ok":
         out.label("outcome:" + s1 + ":" + (crash_sig(a) if s1 == "crash" else common.err_class(a)))
         return out
-    try:
-        ta = xform.parse(a.xform)
-        tb = xform.parse(b.xform)
-    except xform.IllFormed:
+    parsed = []
+    for r_ in (a, b):
+        try:
+            parsed.append(xform.parse(r_.xform))
+        except xform.IllFormed as e:
+            parsed.append(e)
+    out.checked("C15.same-tree")
+    bad = [isinstance(x, xform.IllFormed) for x in parsed]
+    if all(bad):
         out.label("unparseable (C01's business)")
         return out
-    out.checked("C15.same-tree")
+    if any(bad):
+        # one mode gives a document, the other does not: not the same XML document
+        out.fail("C15.same-tree", "one-mode-ill-formed", f"{'compact' if bad[0] else 'pretty'} output is not well-formed: {parsed[bad.index(True)]}")
+        return out
+    ta, tb = parsed
     ca, cb = xform.canon(ta), xform.canon(tb)
     if ca != cb:
         d = xform.canon_diff(ca, cb) or "?"
         kind = "text" if ": text " in d else "attr" if ": attr " in d else "structure"
         out.fail("C15.same-tree", kind, d)
+    # the survey's own file writer takes the same switch
+    sv = getattr(a, "_survey", None)
+    if sv is not None and ca == cb:
+        import os
+        import tempfile
+        d_ = tempfile.mkdtemp(prefix="vf_c15_")
+        try:
+            for mode, want in ((False, ca), (True, ca)):
+                out.checked("C15.file-writer")
+                path = os.path.join(d_, f"f{int(mode)}.xml")
+                try:
+                    sv.print_xform_to_file(path, validate=False, pretty_print=mode)
+                    with open(path, encoding="utf-8") as fh:
+                        txt = fh.read()
+                    got = xform.canon(xform.parse(txt))
+                except xform.IllFormed as e:
+                    out.fail("C15.file-writer", "ill-formed", f"print_xform_to_file(pretty_print={mode}): {e}")
+                    continue
+                except Exception as e:  # noqa: BLE001
+                    out.fail("C15.file-writer", "raises:" + crash_sig(e), f"print_xform_to_file(pretty_print={mode}): {e!r}")
+                    continue
+                if got != want:
+                    dd = xform.canon_diff(want, got) or "?"
+                    out.fail("C15.file-writer", "text" if ": text " in dd else "attr" if ": attr " in dd else "structure", f"print_xform_to_file(pretty_print={mode}): {dd}")
+        finally:
+            import shutil
+            shutil.rmtree(d_, ignore_errors=True)
     out.checked("C15.warnings")
     if a.warnings != b.warnings:
         out.fail("C15.warnings", "", f"{a.warnings} vs {b.warnings}")
